@@ -127,6 +127,13 @@ def run(ctx):
         ctx.require_coverage(mcs[0][1], ACTIONS, "MC_Coverage")
     rejected = 0
     while not tr.ok:
+        if tr.violated in CONST_INVS:
+            # the same finding as in the model runs (the trace specification carries the same constants)
+            ctx.violation("constants:" + tr.violated,
+                          "with the window constants of the built code (%s) the specification violates %s" % (
+                              json.dumps(c, sort_keys=True), tr.violated), {"tlc": tr.out[-3000:]})
+            ctx.note("trace validation not meaningful: the code's window constants violate %s" % tr.violated)
+            break
         if tr.violated != "Postcondition":
             ctx.broken("trace validation stopped with %s, not with a rejected trace:\n%s" % (tr.violated, tr.out[-1500:]))
         hw = _hwm(tr.out)
